@@ -45,29 +45,48 @@ Theorem C09_tuple_hint : forall f o e bs nm x, disable_tuple o = false ->
 Proof. exact union_tuple_hint. Qed.
 Print Assumptions C09_tuple_hint.
 
-(** a dict carrying "-type" = t validates against a record branch (given inline or by name) only if t is that
-    record's full name: together with C09_conforming the hint selects exactly the named branch *)
-Theorem C09_type_hint : forall f o e b kv n al fs t,
+(** a dict carrying a "-type" entry (other than None): only record branches of exactly that full name (given inline or
+    by name) are considered by the search, so the branch written is such a record -- whatever else the dict would fit
+    (e.g. a map branch) ... *)
+Theorem C09_type_hint : forall f o e bs v i a c h,
+  elab (S f) o e (SUnion bs) v = WOk (AUnion i a) -> ~ hinted_by o v -> type_hint v = Some h -> nthZ bs i = Some c ->
+  exists n al fs, kind_of e c = SRecord n al fs /\ h = PStr n.
+Proof. exact union_type_hint. Qed.
+Print Assumptions C09_type_hint.
+
+(** ... and it is an error when no branch is both considered and validating -- in particular when the "-type" entry
+    names no record branch of the union ([hint_pass e v c = false] for every branch); without a hint: when nothing validates *)
+Theorem C09_no_branch : forall f o e bs v,
+  ~ hinted_by o v -> Forall (fun c => hint_pass e v c = false \/ validate f o e c (Some v) = Ok false) bs ->
+  elab (S f) o e (SUnion bs) v = WErr.
+Proof. exact union_no_branch. Qed.
+Print Assumptions C09_no_branch.
+
+(** the validator's side of the hint: a dict carrying "-type" = t validates against a record branch only if t is
+    that record's full name *)
+Theorem C09_type_hint_validate : forall f o e b kv n al fs t,
   validate f o e b (Some (PDict kv)) = Ok true -> kind_of e b = SRecord n al fs ->
   dict_get kv (s2b "-type") = Some t -> t = PStr n.
 Proof. exact type_hint_selects. Qed.
-Print Assumptions C09_type_hint.
+Print Assumptions C09_type_hint_validate.
 
-(** first in schema order among non-record branches: when the chosen branch is neither a record nor a "double",
-    it validates and every earlier branch failed validation or is a (validating) record *)
+(** [passed_over f o e v d]: the search went past branch d: excluded by the "-type" entry, or failed validation, or a
+    validating record (records never stop the search).
+    First in schema order among non-record branches: when the chosen branch is neither a record nor a "double", it
+    validates and every earlier branch was passed over *)
 Theorem C09_first_nonrecord : forall f o e bs v i a c,
   elab (S f) o e (SUnion bs) v = WOk (AUnion i a) -> ~ hinted_by o v -> nthZ bs i = Some c ->
   is_rec (kind_of e c) = false -> is_double c = false ->
   validate f o e c (Some v) = Ok true /\
-  forall k d, 0 <= k < i -> nthZ bs k = Some d ->
-    validate f o e d (Some v) = Ok false \/ (validate f o e d (Some v) = Ok true /\ is_rec (kind_of e d) = true).
+  forall k d, 0 <= k < i -> nthZ bs k = Some d -> passed_over f o e v d.
 Proof. exact union_first_nonrecord. Qed.
 Print Assumptions C09_first_nonrecord.
 
-(** "float" is only taken when no "double" branch follows it ... *)
+(** "float" is only taken when no "double" branch follows it (a "-type" entry excludes every non-record branch, so the
+    first disjunct only occurs when the chosen branch could not have been a float in the first place) ... *)
 Theorem C09_float_defers_to_double : forall f o e bs v i a c,
   elab (S f) o e (SUnion bs) v = WOk (AUnion i a) -> ~ hinted_by o v -> nthZ bs i = Some c ->
-  is_flt (kind_of e c) = true -> forall k d, i < k -> nthZ bs k = Some d -> is_double d = false.
+  is_flt (kind_of e c) = true -> forall k d, i < k -> nthZ bs k = Some d -> hint_pass e v d = false \/ is_double d = false.
 Proof. exact union_float_last. Qed.
 Print Assumptions C09_float_defers_to_double.
 
@@ -76,23 +95,22 @@ Print Assumptions C09_float_defers_to_double.
 Theorem C09_double_chosen : forall f o e bs v i a c,
   elab (S f) o e (SUnion bs) v = WOk (AUnion i a) -> ~ hinted_by o v -> nthZ bs i = Some c -> is_double c = true ->
   (validate f o e c (Some v) = Ok true /\
-   forall k d, 0 <= k < i -> nthZ bs k = Some d ->
-     validate f o e d (Some v) = Ok false \/ (validate f o e d (Some v) = Ok true /\ is_rec (kind_of e d) = true)) \/
+   forall k d, 0 <= k < i -> nthZ bs k = Some d -> passed_over f o e v d) \/
   (exists k cf, 0 <= k < i /\ nthZ bs k = Some cf /\ validate f o e cf (Some v) = Ok true /\ is_flt (kind_of e cf) = true /\
-     (forall m d, 0 <= m < k -> nthZ bs m = Some d ->
-        validate f o e d (Some v) = Ok false \/ (validate f o e d (Some v) = Ok true /\ is_rec (kind_of e d) = true)) /\
-     (forall m d, k < m < i -> nthZ bs m = Some d -> is_double d = false)).
+     (forall m d, 0 <= m < k -> nthZ bs m = Some d -> passed_over f o e v d) /\
+     (forall m d, k < m < i -> nthZ bs m = Some d -> hint_pass e v d = false \/ is_double d = false)).
 Proof. exact union_double. Qed.
 Print Assumptions C09_double_chosen.
 
-(** records: a record branch is chosen only when no non-record branch validates; it then shares at least as many
-    field names with the datum as every validating record branch, and strictly more than every earlier one *)
+(** records: a record branch is chosen only when no considered non-record branch validates; it then shares at least as
+    many field names with the datum as every considered validating record branch, and strictly more than every earlier one *)
 Theorem C09_most_fields_first_on_tie : forall f o e bs v i a c,
   elab (S f) o e (SUnion bs) v = WOk (AUnion i a) -> ~ hinted_by o v -> nthZ bs i = Some c ->
   is_rec (kind_of e c) = true ->
   validate f o e c (Some v) = Ok true /\
-  Forall (fun d => validate f o e d (Some v) = Ok false \/ (validate f o e d (Some v) = Ok true /\ is_rec (kind_of e d) = true)) bs /\
-  forall k d, nthZ bs k = Some d -> validate f o e d (Some v) = Ok true /\ is_rec (kind_of e d) = true ->
+  Forall (passed_over f o e v) bs /\
+  forall k d, nthZ bs k = Some d ->
+    hint_pass e v d = true /\ validate f o e d (Some v) = Ok true /\ is_rec (kind_of e d) = true ->
     shared_of e v d <= shared_of e v c /\ (k < i -> shared_of e v d < shared_of e v c).
 Proof. exact union_most_fields. Qed.
 Print Assumptions C09_most_fields_first_on_tie.
@@ -100,19 +118,14 @@ Print Assumptions C09_most_fields_first_on_tie.
 (** what the loop computes, in one statement (any start index / best-so-far / most-so-far): either no non-record
     branch validates and the result is the best record ([rec_best]), or the loop stops at the first validating
     non-record branch, deferring from "float" to the first later "double" ([stop_at]).
+    Branches excluded by a "-type" entry of the datum ([hint_pass] false) are passed over in every mode.
     NOTE (DESIGN F13, observation): a validating record BEFORE a validating non-record branch is passed over --
-    [Rec, map] with a dict fitting both goes to the map.  The property's statement leaves that case open. *)
+    [Rec, map] with a dict fitting both and carrying no "-type" goes to the map.  The statement leaves that case open. *)
 Theorem C09_search_spec : forall val e v bs i best most j,
   choose val e v bs i best most false = Ok j ->
   (Forall (skipped val e v) bs /\ rec_best val e v bs i best most j) \/ stop_at val e v bs i j.
 Proof. exact choose_spec. Qed.
 Print Assumptions C09_search_spec.
-
-(** no branch validates: the writer raises *)
-Theorem C09_no_branch : forall f o e bs v,
-  ~ hinted_by o v -> Forall (fun c => validate f o e c (Some v) = Ok false) bs -> elab (S f) o e (SUnion bs) v = WErr.
-Proof. exact union_no_branch. Qed.
-Print Assumptions C09_no_branch.
 
 (* C09_closure (full statement, NOT proved):
      forall f o e s v a pv, wf ... ->
@@ -124,7 +137,10 @@ Print Assumptions C09_no_branch.
    evaluated on every applicable case by corr:closure (on the implementation, at byte level) and inside the model (the
    CL field of run_c09: py_of then write then compare). *)
 
-(** the full closure statement is FALSE of the faithful model (and of the code) without a further hypothesis: a bytearray
+(** OUTSIDE THE PROPERTY'S STATEMENT (a lemma about the model, not a defect): the statement's closure clause speaks
+    about the (name, value) pairs returned for NAMED branches.  A value written under an UNNAMED branch comes back as a
+    plain, normalised value (bytearray -> bytes, tuple -> list, int -> float) and may legitimately re-resolve to another
+    branch.  So byte-level closure for arbitrary data is false of the model (and of the code): a bytearray
     of the fixed's size under [null, fixed(2), bytes] does not validate as fixed (only bytes does), is written under the
     unnamed "bytes" branch, is read back as a bytes object -- and that validates against the EARLIER fixed branch *)
 Theorem C09_closure_refuted : exists o e s v a pv bs',
@@ -177,9 +193,13 @@ Example C09_example :
   elab 9 o0 ex_env ex_u (PTuple [PStr (s2b "B"); dict [("x", PInt 1)]]) = WErr /\
   (* nothing validates *)
   elab 9 o0 ex_env ex_u (PBool true) = WErr /\
+  (* "-type" beats a map branch that also fits; a "-type" naming no record branch is an error *)
+  elab 9 o0 ex_env (SUnion [SMap (SUnion [SInt; SString]); SRef (s2b "A")]) (dict [("x", PInt 1); ("-type", PStr (s2b "A"))])
+    = WOk (AUnion 1 (ARecord [AInt 1; AUnion 0 ANull])) /\
+  elab 9 o0 ex_env (SUnion [SMap (SUnion [SInt; SString]); SRef (s2b "A")]) (dict [("x", PInt 1); ("-type", PStr (s2b "B"))]) = WErr /\
   (* read with names, write back: same wire value *)
   py_of ro_named ex_env ex_u (AUnion 1 (ARecord [AInt 1; AUnion 1 (AInt 2); AUnion 0 ANull]))
     = Some (PTuple [PStr (s2b "ns.B"); dict [("x", PInt 1); ("z", PInt 2); ("y", PNone)]]) /\
   elab 9 o0 ex_env ex_u (PTuple [PStr (s2b "ns.B"); dict [("x", PInt 1); ("z", PInt 2); ("y", PNone)]])
     = WOk (AUnion 1 (ARecord [AInt 1; AUnion 1 (AInt 2); AUnion 0 ANull])).
-Proof. split; [|split; [|split; [|split; [|split; [|split; [|split; [|split]]]]]]]; vm_compute; reflexivity. Qed.
+Proof. split; [|split; [|split; [|split; [|split; [|split; [|split; [|split; [|split; [|split]]]]]]]]]; vm_compute; reflexivity. Qed.
